@@ -82,6 +82,36 @@ def check_chain(case, ev):
             gl, ml_ = (got or "").split("\n"), multi.split("\n")
             i = next((i for i, (a, b) in enumerate(zip(gl, ml_)) if a != b), 0)
             return Finding("chain/command-line-differs-from-library:%s" % "".join("pinw"[i_] if f else "-" for i_, f in enumerate((pwd, ip, asn, words))) + (":undo" if undo_ else ""), "argv %r, line %r: command line %r, FileAnonymizer %r" % (argv[4:], case["lines"][i] if i < len(case["lines"]) else None, gl[i] if i < len(gl) else None, ml_[i] if i < len(ml_) else None), orig)
+    if case.get("dirfault") and "\r" not in text:
+        # the same text as the last file of a directory run in which earlier entries cannot be processed
+        # (undecodable input, output path taken by a directory): identical to the library result
+        import os
+        import shutil
+        import tempfile
+
+        from netconan.anonymize_files import anonymize_files
+
+        d = tempfile.mkdtemp(prefix="vf-c15d-")
+        try:
+            os.makedirs(os.path.join(d, "in"))
+            with open(os.path.join(d, "in", "00_bad.cfg"), "wb") as fh:
+                fh.write(b"hostname x\n\xff\xfe\x80\n")
+            with open(os.path.join(d, "in", "01_blocked.cfg"), "w") as fh:
+                fh.write("interface Gi0/1\n")
+            os.makedirs(os.path.join(d, "out", "01_blocked.cfg"))
+            with open(os.path.join(d, "in", "zz.cfg"), "w", encoding="utf-8", newline="") as fh:
+                fh.write(text)
+            _, exc = guarded(anonymize_files, os.path.join(d, "in"), os.path.join(d, "out"), **_kw(case, pwd, ip, words, asn))
+            if exc is not None:
+                return core.exc_finding(exc, orig, "anonymize_files/")
+            p_ = os.path.join(d, "out", "zz.cfg")
+            got_d = open(p_, encoding="utf-8", newline="").read() if os.path.isfile(p_) else None
+        finally:
+            shutil.rmtree(d, ignore_errors=True)
+        if got_d != multi:
+            gl, ml_ = (got_d or "").split("\n"), multi.split("\n")
+            i = next((i for i, (a, b) in enumerate(zip(gl, ml_)) if a != b), 0)
+            return Finding("chain/directory-run-with-failing-files-differs-from-library:%s" % "".join("pinw"[i_] if f else "-" for i_, f in enumerate((pwd, ip, asn, words))), "line %r: after two failing files anonymize_files gives %r, FileAnonymizer %r" % (case["lines"][i] if i < len(case["lines"]) else None, gl[i] if i < len(gl) else None, ml_[i] if i < len(ml_) else None), orig)
     cur = text
     stages = []
     changed_by = [0] * len(case["lines"])
@@ -106,7 +136,7 @@ def check_chain(case, ev):
         stages.append(name)
         cur = nxt
     nfeat = sum(1 for x in (pwd, ip, words, asn) if x)
-    ev.case(orig, nfeat >= 2 and any(c >= 2 for c in changed_by), ["features-" + "".join("pinw"[i] if f else "-" for i, f in enumerate((pwd, ip, asn, words))), "undo" if case["undo"] and ip else "anonymize"] + (["split-ip"] if case.get("split_ip") else []) + (["also-command-line"] if case.get("cli") else []))
+    ev.case(orig, nfeat >= 2 and any(c >= 2 for c in changed_by), ["features-" + "".join("pinw"[i] if f else "-" for i, f in enumerate((pwd, ip, asn, words))), "undo" if case["undo"] and ip else "anonymize"] + (["split-ip"] if case.get("split_ip") else []) + (["also-command-line"] if case.get("cli") else []) + (["also-directory-run-with-failing-files"] if case.get("dirfault") else []))
     if multi != cur:
         ml, cl = multi.split("\n"), cur.split("\n")
         i = next((i for i, (a, b) in enumerate(zip(ml, cl)) if a != b), 0)
@@ -176,6 +206,7 @@ def _case(draw):
         "undo": draw(st.integers(0, 2)) == 0,
         "split_ip": draw(st.integers(0, 3)) == 0,
         "cli": draw(st.integers(0, 3)) == 0,
+        "dirfault": draw(st.integers(0, 4)) == 0,
         "lines": [l.replace("\n", " ") if draw(st.integers(0, 7)) else l.replace("\n", " ").replace(" ", draw(st.sampled_from(["\x0b", "\x0c", "\x1c", "\x1d", "\x85", "\u2028", "\r", "\t"])), 1) for l in lines],
     }
 
